@@ -85,7 +85,13 @@ func relayBackend(w http.ResponseWriter, r *http.Request) {
 		return
 	}
 	c := ex.c
-	body, _ := io.ReadAll(r.Body)
+	var body []byte
+	// "403early": a backend that decides from the header block alone -- when the client asks first (Expect:
+	// 100-continue) it is turned away without its body ever being read, so no "100 Continue" is ever due
+	early := c.d(6) == "403early" && r.Header.Get("Expect") != ""
+	if !early {
+		body, _ = io.ReadAll(r.Body)
+	}
 	framing := "none"
 	if len(r.TransferEncoding) > 0 {
 		framing = strings.Join(r.TransferEncoding, ",")
@@ -183,7 +189,8 @@ type respSeen struct {
 	Hdrs    []hv   `json:"hdrs"`
 	Body    string `json:"body"`
 	Framing string `json:"framing"`
-	First   idv    `json:"first"` // first value of each ID header on the final response
+	First   idv    `json:"first"`  // first value of each ID header on the final response
+	Got100  bool   `json:"got100"` // a "100 Continue" arrived before the final response
 }
 
 type idv struct {
@@ -262,6 +269,7 @@ func relayExchange(c *relayCase, which, addr, prefix string) (*respSeen, *exchan
 	raw := buildRequest(c, key, prefix)
 	expect := c.d(4) == "expect_100" && c.d(5) != "none"
 	interim := []int{}
+	got100 := false
 	var resp *http.Response
 	if expect {
 		// send the header block, wait for "100 Continue" (at most 1.5 s), then the body
@@ -275,6 +283,9 @@ func relayExchange(c *relayCase, which, addr, prefix string) (*respSeen, *exchan
 		if err == nil && r1.StatusCode != 100 {
 			resp = r1 // the server answered without asking for the body
 		}
+		if err == nil && r1.StatusCode == 100 {
+			got100 = true
+		}
 		if resp == nil || (resp.StatusCode >= 100 && resp.StatusCode < 200) {
 			if _, err := conn.c.Write(raw[i:]); err != nil {
 				return nil, ex, "write body: " + err.Error()
@@ -286,6 +297,9 @@ func relayExchange(c *relayCase, which, addr, prefix string) (*respSeen, *exchan
 	for resp == nil || (resp.StatusCode >= 100 && resp.StatusCode < 200) {
 		if resp != nil && resp.StatusCode != 100 {
 			interim = append(interim, resp.StatusCode)
+		}
+		if resp != nil && resp.StatusCode == 100 {
+			got100 = true
 		}
 		r, err := http.ReadResponse(conn.br, &http.Request{Method: c.d(1)})
 		if err != nil {
@@ -326,9 +340,9 @@ func relayExchange(c *relayCase, which, addr, prefix string) (*respSeen, *exchan
 	}
 	resp.Body.Close()
 	if readErr != "" {
-		return &respSeen{Interim: interim, Status: resp.StatusCode, Hdrs: headerSet(resp.Header, ""), Body: digest(body), Framing: framing, First: firstIDs(resp.Header)}, ex, readErr
+		return &respSeen{Interim: interim, Status: resp.StatusCode, Hdrs: headerSet(resp.Header, ""), Body: digest(body), Framing: framing, First: firstIDs(resp.Header), Got100: got100}, ex, readErr
 	}
-	return &respSeen{Interim: interim, Status: resp.StatusCode, Hdrs: headerSet(resp.Header, ""), Body: digest(body), Framing: framing, First: firstIDs(resp.Header)}, ex, ""
+	return &respSeen{Interim: interim, Status: resp.StatusCode, Hdrs: headerSet(resp.Header, ""), Body: digest(body), Framing: framing, First: firstIDs(resp.Header), Got100: got100}, ex, ""
 }
 
 type relayEnv struct {
